@@ -209,8 +209,8 @@ class SimGitHub:
 
     # -- seams -----------------------------------------------------------------------------------
     async def _leg(self):
-        d = self.lat.ticks(6)
         w = self.w
+        d = self.lat.ticks(6) * w.gh_slow     # per-run GitHub speed: a refresh of a branch takes ms .. tens of seconds
         if w.p_delay and not w.healing and self.f_delay.chance(w.p_delay):
             self.ctx.fault('net.delay')
             d += self.f_delay.rint(1, 40) * 0.5
@@ -218,6 +218,11 @@ class SimGitHub:
 
     def _maybe_fail(self, what):
         w = self.w
+        if not w.healing and w.outage_until.get(what, 0.0) > self.ctx.loop.time():
+            # partial GitHub incident: this endpoint class answers 503 for a while, the others work
+            self.ctx.probe('github_outage_hit')
+            self.log.add('github', 'outage', what)
+            raise GitHubBroken(503, 'sim: service unavailable')
         if w.p_gh_err and not w.healing and self.f_err.chance(w.p_gh_err):
             self.ctx.fault('net.github_error')
             k = self.f_err.draw(3)
@@ -382,6 +387,8 @@ class SimGitHub:
             self.served_chk[number] = self.pending_chk.pop(number)
         self.log.add('github', 'serve_checks', number, head, review or '-', int(last),
                      tuple((k, v[1] or '-', int(v[2])) for k, v in sorted(snap['nodes'].items())))
+        if last:
+            self.w.checks_served(number)
         return {'data': {'repository': {'pullRequest': {
             'reviewDecision': review,
             'commits': {'nodes': [{'commit': {'statusCheckRollup': rollup}}]}}}}}
@@ -435,6 +442,7 @@ class SimGitHub:
             self.log.add('github', 'merge_ack_lost', number)
             raise GitHubBroken(502, 'sim: bad gateway (merge was applied)')
         self.await_reobserve[base] = True
+        self.w.after_merge(base)
         await self._leg()
         return {'sha': new, 'merged': True, 'message': 'Pull Request successfully merged'}
 
